@@ -26,17 +26,19 @@ class Scenario:
     free      : list of adapter-owned threads, each a list of (kind, item)
     """
 
-    def __init__(self, pool, chunks, behav, free=()):
+    def __init__(self, pool, chunks, behav, free=(), sizes=None, fail_send=None):
         self.pool = pool
         self.chunks = chunks
         self.behav = behav
         self.free = [list(f) for f in free]
+        self.sizes = dict(sizes or {})          # listener call index -> payload size (C16: large updates)
+        self.fail_send = fail_send
 
     def requests(self):
         return [r for c in self.chunks for r in c]
 
     def describe(self):
-        return {'pool': self.pool, 'chunks': self.chunks, 'behav': self.behav, 'free': self.free}
+        return {'pool': self.pool, 'chunks': self.chunks, 'behav': self.behav, 'free': self.free, 'sizes': self.sizes, 'fail_send': self.fail_send}
 
 
 EXC = {}
@@ -128,7 +130,10 @@ def do_listener(S, ad, log, kind, item, origin, within=None):
     lc = LisCall(kind, item, S.me().name if S.me() else 'ctl', origin, S.step_no, within, tag)
     log['lis'].append(lc)
     if kind == 'upd':
-        listener.update(item, {'k': tag}, False)
+        n = log.get('sizes', {}).get(len(log['lis']) - 1)
+        listener.update(item, {'k': tag if not n else tag + ':' + 'x' * n}, False)
+    elif kind == 'fal':
+        listener.failure(Exception('failure ' + tag))
     elif kind == 'eos':
         listener.end_of_snapshot(item)
     else:
@@ -145,12 +150,12 @@ def run_scenario(sc, chooser, eager=('writer',), max_steps=6000, probe=True):
     from lightstreamer_adapter.server import DataProviderServer
     import wire
     S = dsched.Sched()
-    log = {'calls': [], 'lis': []}
+    log = {'calls': [], 'lis': [], 'sizes': {int(k): v for k, v in sc.sizes.items()}}
     stream = [b'1|DPI|S|ARI.version|S|1.9.1\r\n']
     for ch in sc.chunks:
         stream.append(b''.join(wire.encode_line(r[0].encode(), r[1], ('WItem', r[2])) for r in ch))
     r = Run()
-    with shims.install(S, chunks=stream, end='block', cpu=4) as env:
+    with shims.install(S, chunks=stream, end='block', cpu=4, fail_send=sc.fail_send) as env:
         ad = make_adapter(S, sc, log)
         srv = DataProviderServer(ad, ('h', 1), name='D', keep_alive=0, thread_pool_size=sc.pool)
         srv.start()
@@ -713,3 +718,85 @@ def oracle_c19(r, F):
 
 
 ORACLES = {'C01': oracle_c01, 'C02': oracle_c02, 'C03': oracle_c03, 'C17': oracle_c17, 'C19': oracle_c19}
+
+
+# ---------------------------------------------------------------- outbound path (C16)
+def outbound_labels(r):
+    """-> (labels for Model/Outbound.v, producer index per thread name)"""
+    prod = {}
+    labs = []
+    ev_by_step = collections.defaultdict(list)
+    for e in r.events[:r.n_events]:
+        ev_by_step[e[1]].append(e)
+        if e[0] == 'put' and e[2] == 'ctl':
+            # enqueued by the (unscheduled) starting thread before any scheduled step: the credentials line
+            labs.append([sym('put'), A(0), (e[3] if isinstance(e[3], str) else repr(e[3])).encode('utf-8')])
+    for st in r.trace:
+        kind = st['kind']
+        if kind == 'put':
+            p = prod.setdefault(st['tid'], len(prod) + 1)
+            item = st['data']
+            labs.append([sym('put'), A(p), (item if isinstance(item, str) else repr(item)).encode('utf-8')])
+        elif st['role'] == 'writer' and kind == 'get':
+            if any(e[0] == 'timeout' for e in ev_by_step[st['step']]):
+                labs.append(sym('get-timeout'))
+            else:
+                labs.append(sym('get'))
+        elif st['role'] == 'writer' and kind == 'send':
+            ok = any(e[0] == 'send' for e in ev_by_step[st['step']])
+            labs.append([sym('send'), A(ok)])
+    return labs, prod
+
+
+def oracle_c16(r, F):
+    """atomic lines, no loss / duplication, per-thread order, events inside subscribe() before the reply"""
+    out = []
+    stream = b''.join(r.sent)
+    if not stream.endswith(b'\r\n') and stream:
+        out.append(('the byte stream does not end with a complete line', {'kind': 'partial_line'}))
+    lines = stream.split(b'\r\n')[:-1] if stream else []
+    puts = [(e[1], e[2], e[3]) for e in r.events[:r.n_events] if e[0] == 'put' and isinstance(e[3], str)
+            and e[3] not in ('STOP_WAITING_PILL', 'KEEPALIVE_PILL')]
+    want = [p[2].encode('utf-8') for p in puts]
+    if r.status == 'quiescent' and r.sc.fail_send is None:
+        if lines != want:
+            # classify
+            import collections as c
+            cw, cl = c.Counter(want), c.Counter(lines)
+            if any(b'\r' in l or b'\n' in l for l in lines) or set(cl) - set(cw):
+                out.append(('lines on the wire are not the submitted messages (interleaved / corrupted): %r' % ([l[:60] for l in lines if l not in cw][:3],), {'kind': 'interleaved'}))
+            elif cl != cw:
+                out.append(('messages lost or duplicated: submitted %d, written %d' % (len(want), len(lines)), {'kind': 'lost_or_dup'}))
+            else:
+                out.append(('messages written in an order different from the submission (linearization) order', {'kind': 'reordered'}))
+    else:
+        # prefix property while the connection is up
+        if lines != want[:len(lines)]:
+            out.append(('written lines are not a prefix of the submitted messages', {'kind': 'reordered'}))
+    # per-thread order
+    by_thread = collections.defaultdict(list)
+    for step, th, m in puts:
+        by_thread[th].append(m.encode('utf-8'))
+    pos = {}
+    for i, l in enumerate(lines):
+        pos.setdefault(l, []).append(i)
+    multiplicity = collections.Counter(m for _, _, m in puts)
+    for th, ms in by_thread.items():
+        # judged on messages whose text is unique among all submissions (EOS / CLS lines of one subscription are identical texts)
+        idx = [pos[m][0] for m in ms if multiplicity[m.decode('utf-8')] == 1 and len(pos.get(m, [])) == 1]
+        if idx != sorted(idx):
+            out.append(('messages of thread %s written out of its submission order' % th, {'kind': 'thread_order'}))
+    # events nested in subscribe() precede that subscription's reply
+    for lc in r.lis:
+        if lc.within is not None and lc.within.name == 'subscribe' and lc.e is not None:
+            mine = [p for p in puts if p[1] == lc.thread and lc.b <= p[0] <= lc.e]
+            for rid, cs in F.calls_of.items():
+                if any(c is lc.within for c in cs) and F.replies.get(rid) and mine:
+                    rl = F.replies[rid][0][2].encode('utf-8')
+                    ml = mine[0][2].encode('utf-8')
+                    if rl in pos and ml in pos and pos[ml][0] > pos[rl][0]:
+                        out.append(('an event sent from inside subscribe() of %s is written after its reply' % rid, {'kind': 'nested_after_reply'}))
+    return out
+
+
+ORACLES['C16'] = oracle_c16
